@@ -33,9 +33,11 @@ VARIABLES l, pre, cur, ev,
           ledger,     \* history: per agent, the harness's own record of outstanding requests {<<tid, dst, at, gen>>}
           pled,       \* ledger before the last step
           base,       \* history: per agent, [key, tally, cnt] = selected pair (l,r), harness tallies and that pair's counters when it became selected
+          defv,       \* history: per agent, {<<l, r>>} = pairs on which a valued nomination arrived while the pair was not valid yet and that have not become valid since (the value stays deferred, a later plain USE-CANDIDATE does not erase it)
+          pdefv,      \* defv before the last step
           tickTx,     \* history: per agent, {<<gen, l, r, tid>>} = the requests it sent from its own timer (ordinary checks; a triggered check is sent while a datagram is handled)
           txOK        \* history: per agent, transaction ids of its requests whose success response reached it (signed, from the address asked, within the lifetime)
-vars == <<l, pre, cur, ev, idmap, answered, ucAnswered, nomRx, chk, ltc, acc, acked, iss, base, ledger, pled, nomKind, nomTids, nomLost, tickTx, txOK>>
+vars == <<l, pre, cur, ev, idmap, answered, ucAnswered, nomRx, chk, ltc, acc, acked, iss, base, ledger, pled, nomKind, nomTids, nomLost, tickTx, txOK, defv, pdefv>>
 
 E0 == [a \in Agents |-> {}]
 CountIn(s, x) == Cardinality({k \in 1..Len(s) : s[k] = x})
@@ -56,7 +58,7 @@ Init == /\ l = 2 /\ pre = Tr[1].post /\ cur = Tr[1].post /\ ev = Tr[1]
         /\ answered = E0 /\ ucAnswered = E0 /\ nomRx = E0
         /\ chk = [a \in Agents |-> 0 - 1] /\ ltc = [a \in Agents |-> "Unknown"]
         /\ acc = [a \in Agents |-> NoNom] /\ acked = [a \in Agents |-> 0] /\ iss = NoNom
-        /\ ledger = E0 /\ pled = E0 /\ nomKind = E0 /\ nomTids = {} /\ nomLost = FALSE /\ tickTx = E0 /\ txOK = E0
+        /\ ledger = E0 /\ pled = E0 /\ nomKind = E0 /\ nomTids = {} /\ nomLost = FALSE /\ tickTx = E0 /\ txOK = E0 /\ defv = E0 /\ pdefv = E0
         /\ base = [a \in Agents |-> [key |-> <<>>, tally |-> <<0, 0, 0, 0>>, cnt |-> <<0, 0, 0, 0>>]]
 Step == /\ l <= Len(Tr) /\ l' = l + 1 /\ pre' = cur /\ cur' = Tr[l].post /\ ev' = Tr[l]
         /\ LET e == Tr[l]  reset == e.ev = "Reset" IN
@@ -98,10 +100,17 @@ Step == /\ l <= Len(Tr) /\ l' = l + 1 /\ pre' = cur /\ cur' = Tr[l].post /\ ev' 
                          /\ e.m.rolea # cur[a].role
                       THEN {x \in nomKind[a] : ~(x[1] = Unwire(e.m.dst) /\ x[2] = e.m.src)} \cup {<<Unwire(e.m.dst), e.m.src, e.m.nom>>}
                  ELSE nomKind[a]]
+           /\ defv' = [a \in Agents |->
+                 IF reset \/ (e.ev = "Restart" /\ e.ag = a) \/ e.post[a].role # cur[a].role THEN {}
+                 ELSE LET k == <<Unwire(e.m.dst), e.m.src>>
+                          add == IF IsDeliverOf(e) /\ RcvOf(e) = a /\ e.m.kind = "req" /\ e.m.nom # 0 /\ SocketOpenOf(e, cur) /\ ReqAuthOKOf(e, cur)
+                                    /\ e.m.rolea # cur[a].role /\ ~\E p \in Rng(cur[a].pairs) : p.l = k[1] /\ p.r = k[2] /\ p.st = "S"
+                                 THEN {k} ELSE {}
+                      IN (defv[a] \cup add) \ {<<p.l, p.r>> : p \in {q \in Rng(e.post[a].pairs) : q.st = "S"}}]
            /\ nomTids' = IF reset THEN {} ELSE nomTids \cup {x.tid : x \in {y \in NewMsgs(e, cur) : y.kind = "req" /\ y.nom # 0}}
            /\ nomLost' = IF reset THEN FALSE
                          ELSE nomLost \/ (e.ev = "Drop" /\ ((e.m.kind = "req" /\ e.m.nom # 0) \/ (e.m.kind = "succ" /\ e.m.tid \in nomTids)))
-           /\ pled' = ledger
+           /\ pled' = ledger /\ pdefv' = defv
            /\ tickTx' = [a \in Agents |->
                  IF reset THEN {}
                  ELSE IF e.ev = "Tick" /\ e.ag = a
@@ -230,6 +239,7 @@ C03_NoDowngrade ==
   \A a \in Agents :
      (SelChanged(a) /\ pre[a].sel # 0 /\ cur[a].role = "controlled" /\ pre[a].role = "controlled" /\ (Full(a) \/ CheckPrio[a])
       /\ ev.ev = "Deliver" /\ <<SelKey(cur, a)[1], SelKey(cur, a)[2], 0>> \in nomKind[a]
+      /\ pdefv[a] \cap {SelKey(cur, a)} = {}      \* ... unless a valued nomination waits on that pair: then the value decides (C20)
       /\ \E p \in Rng(cur[a].pairs) : p.id = pre[a].sel) =>
         ~PrLess(PairOf(cur, a, cur[a].sel).pr, PairOf(cur, a, pre[a].sel).pr)
 \* ---------------------------------------------------------------- C05
